@@ -48,6 +48,8 @@ from django_components.expression import DynamicFilterExpression, is_dynamic_exp
 TAG_WHITESPACE = (" ", "\t", "\n", "\r", "\f")
 TAG_FILTER = ("|", ":")
 TAG_SPREAD = ("*", "**", "...")
+# Same limit as the "too many nested parentheses" of Python's own parser
+MAX_NESTING_DEPTH = 200
 
 
 @dataclass
@@ -598,6 +600,11 @@ def parse_tag(text: str, parser: Optional[Parser]) -> Tuple[str, List[TagAttr]]:
         stack = [total_value]
 
         while len(stack) > 0:
+            # The nested structures are serialized / compiled / resolved recursively, so the nesting must stay
+            # well below Python's recursion limit. NOTE: The root item is not a list nor a dict.
+            if len(stack) - 1 > MAX_NESTING_DEPTH:
+                raise TemplateSyntaxError(f"Lists and dicts can be nested at most {MAX_NESTING_DEPTH} levels deep")
+
             take_while(TAG_WHITESPACE)
 
             curr_value = stack[-1]
